@@ -48,6 +48,19 @@ EXTRA_OPS = ['sl:ERROR', 'su:ERROR', 'callpos:CRITICAL', 'callpos:DEBUG', 'callp
 # (callkw: the data handed over by keyword, X=x. Whatever such a call does - return or fail - it must do in every logger state.)
 
 
+INNER_ERRSTATES = []
+_REAL = {}
+
+
+def _gni_spy(*a, **k):
+    """Recording wrapper on emd.sift.get_next_imf (module level: the masked sift pickles it into its worker pool)."""
+    INNER_ERRSTATES.append(tuple(sorted(np.geterr().items())))
+    return _REAL['gni'](*a, **k)
+
+
+_gni_spy._emdverif_spy = True
+
+
 class NullOut:
     def write(self, s):
         return len(s)
@@ -73,6 +86,13 @@ class World:
             lg = logging.getLogger(n)
             self.pristine[n] = (list(lg.handlers), lg.level, lg.disabled, lg.propagate)
         self.root_disable = logging.root.manager.disable
+        # ambient state that is the caller's: numpy's floating-point error policy (numpy's default here, not the harness's
+        # all-'ignore'), observed from inside the sift by a recording wrapper on the single-IMF stage
+        np.seterr(divide='warn', invalid='warn', over='warn', under='ignore')
+        self.inner_errstates = INNER_ERRSTATES
+        if not getattr(self.S.get_next_imf, '_emdverif_spy', False):
+            _REAL['gni'] = self.S.get_next_imf
+            self.S.get_next_imf = _gni_spy
         self.base = {'sift': self.run_variant('sift', None)}
         self.kwbase = {}
 
@@ -176,6 +196,7 @@ def step(world, model, op, variant='sift'):
         return 'ok', None
     verbose = None if arg == 'None' else arg
     before = world.handlers()
+    del world.inner_errstates[:]
     try:
         out = world.run_variant(variant, verbose, bad=kind.startswith('raise'), positional=kind.endswith('pos'), keyword_data=kind.endswith('kw'))
     except Exception as e:
@@ -247,6 +268,14 @@ def run_history(ctx, world, start, ops, variants=None, record=None):
                     ctx.violation('result-depends-on-logger', '%s: result differs from the no-logger baseline' % where, case)
                     return None
                 ctx.count('results_equal_baseline')
+                if variant == 'sift':
+                    outer = tuple(sorted(np.geterr().items()))
+                    ctx.count('inner_error_states_observed', len(world.inner_errstates))
+                    if any(st != outer for st in world.inner_errstates):
+                        ctx.violation('numpy-error-state-depends-on-verbosity', '%s: inside the call numpy\'s floating-point error policy was %s, the caller\'s is %s '
+                                      '(what a computation warns about / raises then depends on the requested verbosity)'
+                                      % (where, dict(next(st for st in world.inner_errstates if st != outer)), dict(outer)), case)
+                        return None
             else:
                 if outcome != 'raised':
                     ctx.violation('bad-input-accepted', '%s: the (n,2,3) input did not raise' % where, case)
